@@ -305,6 +305,10 @@ func genC03(t *rapid.T) c03Scenario {
 			sc.Headers = append(sc.Headers, [2]string{"Age", rapid.SampledFrom([]string{"-5", "abc", "99999999999999999999", "", "1.5"}).Draw(t, "ageBad")})
 		}
 	}
+	if rapid.IntRange(0, 3).Draw(t, "tier") == 0 {
+		// the upstream is a cache itself (another pike, a CDN): it labels its answers
+		sc.Headers = append(sc.Headers, [2]string{rapid.SampledFrom([]string{"X-Status", "X-Status", "X-Cache", "Via"}).Draw(t, "tierHeader"), rapid.SampledFrom([]string{"hit", "fetching", "hitForPass", "1.1 tier"}).Draw(t, "tierValue")})
+	}
 	if rapid.IntRange(0, 3).Draw(t, "expires") == 0 {
 		sc.Headers = append(sc.Headers, [2]string{"Expires", "Thu, 01 Jan 2099 00:00:00 GMT"})
 	}
